@@ -169,6 +169,16 @@ func (i *Interpreter) executeAssign(stmt AssignStatement, env *Environment) (int
 				return nil, fmt.Errorf("cannot redeclare query parameter '%s' — it is already bound from the route's query parameters", stmt.Target)
 			}
 		}
+		// query, input, headers (and auth) are given to the route; a route may
+		// declare a variable of its own with one of those names (once).
+		if src, _ := env.LocalSource(stmt.Target); src == BindingRequest {
+			value, err := i.EvaluateExpression(stmt.Value, env)
+			if err != nil {
+				return nil, err
+			}
+			env.Define(stmt.Target, value)
+			return value, nil
+		}
 		return nil, fmt.Errorf("cannot redeclare variable '%s' in the same scope", stmt.Target)
 	}
 
